@@ -237,6 +237,16 @@ func genFragmentations(tier string, rng *rand.Rand, shard, nshards int, hooks in
 								emit(doOp(ex, hooks, fl, R, "d:"+hx(R[:c])+";td:"+hx(R[c:c2])+";td:"+hx(R[c2:])))
 							}
 						}
+						// a slow device: more than a hundred reads that deliver nothing and report nothing, before the reply and
+						// between two of its fragments
+						if sizeClass == 0 || rng.Intn(4) == 0 {
+							empty := strings.Repeat("d:;", 100+rng.Intn(60))
+							emit(doOp(ex, hooks, fl, R, empty+"d:"+hx(R)))
+							if n > 3 {
+								c := 1 + rng.Intn(n-1)
+								emit(doOp(ex, hooks, fl, R, "d:"+hx(R[:c])+";"+empty+"d:"+hx(R[c:])))
+							}
+						}
 						// the peer closes right after replying: the last fragment (or the whole reply) arrives together with EOF
 						emit(doOp(ex, hooks, fl, R, "e:"+hx(R)))
 						for _, c := range cutPositions(rng, n, tier, around) {
@@ -399,6 +409,7 @@ func genFaults(tier string, rng *rand.Rand, shard, nshards int, hooks int, emit 
 }
 
 func genC12(tier string, rng *rand.Rand, shard, nshards int, emit emitter) {
+	genC12Extra(tier, rng, shard, nshards, emit)
 	i := 0
 	reps := 1
 	if tier == "thorough" {
@@ -464,6 +475,17 @@ func genC12(tier string, rng *rand.Rand, shard, nshards int, emit emitter) {
 							d[1] |= 0x80
 							corrupt = append(corrupt, d)
 						}
+						// an extra byte in the middle of the reply, delivered by a read that also reports a deadline error (and,
+						// for the network client, the end of the stream): it is part of what was received
+						if n > 3 {
+							c := 1 + rng.Intn(n-2)
+							junk := []byte{byte(rng.Intn(256))}
+							emit(doOp(ex, 0, fl, R, "d:"+hx(R[:c])+";td:"+hx(junk)+";d:"+hx(R[c:])))
+							emit(doOp(ex, 0, fl, R, "td:"+hx(junk)+";d:"+hx(R)))
+							if kind == "s" {
+								emit(doOp(ex, 0, fl, R, "d:"+hx(R[:c])+";e:"+hx(junk)+";d:"+hx(R[c:])))
+							}
+						}
 						for _, d := range corrupt {
 							m := len(d)
 							if m == 0 {
@@ -481,6 +503,50 @@ func genC12(tier string, rng *rand.Rand, shard, nshards int, emit emitter) {
 						}
 					}
 				}
+			}
+		}
+	}
+}
+
+// genC12Extra: the constructor without configuration (it installs the CRC-verifying functions itself), and frames so
+// long that a length held in 8 bits wraps: their trailer is the CRC of the first (length-2) mod 256 bytes only
+func genC12Extra(tier string, rng *rand.Rand, shard, nshards int, emit emitter) {
+	j := 0
+	for _, fc := range []int{15, 16} {
+		ex := buildExchange(rng, "r", fc, rng.Intn(4))
+		n := len(ex.reply)
+		for b := 0; b < 8*n; b++ {
+			j++
+			if !mine(j, shard, nshards) || (tier != "thorough" && b%3 != 0 && b < 8*(n-2)) {
+				continue
+			}
+			d := append([]byte{}, ex.reply...)
+			d[b/8] ^= 1 << uint(b%8)
+			emit(fmt.Sprintf("dor r %s %s", ex.reqSpec, hx(d)))
+		}
+	}
+	reps := 2
+	if tier == "thorough" {
+		reps = 12
+	}
+	for rep := 0; rep < reps; rep++ {
+		for _, L := range []int{258, 259, 260} {
+			for _, fc := range []int{1, 2, 3, 4, 17, 23} {
+				j++
+				if !mine(j, shard, nshards) {
+					continue
+				}
+				ex := buildExchange(rng, "r", fc, 1)
+				unit := ex.reply[0]
+				body := append([]byte{unit, byte(fc), byte(L - 5)}, rbytes(rng, L-5)...)
+				if fc == 17 {
+					// server id of 10 bytes, run status, the rest is additional data
+					body[2] = 10
+				}
+				c := crc16(body[:(L-2)%256])
+				d := append(body, byte(c), byte(c>>8))
+				emit(doOp(ex, 0, "n", ex.reply, "d:"+hx(d)))
+				emit(doOp(ex, 0, "n", ex.reply, "e:"+hx(d)))
 			}
 		}
 	}
